@@ -1,5 +1,7 @@
-#!/bin/sh
+#!/bin/bash
 # Build /repo's own CMake tree and run its pinned test suite (guard off: there are no hooks).
-set -e
-cmake --build /repo/_build -j16 2>&1 | grep -E "error|FAILED|warning: unused" | head -20 || true
-ctest --test-dir /repo/_build -j8 --timeout 900 2>&1 | tail -4
+set -o pipefail
+cmake --build /repo/_build -j16 2>&1 | grep -E "error|FAILED" | head -20
+ctest --test-dir /repo/_build -j8 --timeout 900 2>&1 | tail -6
+rc=${PIPESTATUS[0]}
+exit $rc
